@@ -288,13 +288,13 @@ type Config struct {
 }
 
 type jsSpec struct {
-	idx       int
-	path      string
-	id        string // f07
-	dir       string
-	pure      bool // under src/pkg (sideEffects:false)
-	starTo    []int
-	imports   []edge
+	idx        int
+	path       string
+	id         string // f07
+	dir        string
+	pure       bool // under src/pkg (sideEffects:false)
+	starTo     []int
+	imports    []edge
 	hasDefault bool
 }
 
@@ -429,7 +429,8 @@ func Gen(t *rapid.T, cfg Config) Project {
 		p.Entries = append(p.Entries, paths[cssIdx[0]])
 	}
 
-	useInject := opts.Bundle && !cfg.NoInject && rapid.IntRange(0, 4).Draw(t, "inject") == 0
+	useInject := opts.Bundle && !cfg.NoInject && rapid.IntRange(0, 7).Draw(t, "inject") == 7
+	useRequire := opts.Bundle && cfg.AllowRequire && rapid.IntRange(0, 3).Draw(t, "require") == 3
 	useExternal := opts.Bundle && rapid.IntRange(0, 2).Draw(t, "external") == 0
 	if useExternal {
 		p.Opts.External = []string{"ext-*"}
@@ -469,14 +470,14 @@ func Gen(t *rapid.T, cfg Config) Project {
 					continue
 				}
 				form := rapid.IntRange(0, nForms-1).Draw(t, "form")
-				if form == eRequire && !cfg.AllowRequire {
+				if form == eRequire && !useRequire {
 					form = eNamed
+				}
+				if strings.HasPrefix(paths[to], "src/pkg/") && rapid.Bool().Draw(t, "unusedpure") {
+					form = eNamedUnused // half of the edges into the sideEffects:false package import something unused
 				}
 				if s.pure && (form == eBare || form == eDynamic) {
 					form = eNamed // keep sideEffects:false files free of side effects of their own making
-				}
-				if !opts.Bundle && form == eRequire {
-					form = eNamed
 				}
 				s.imports = append(s.imports, edge{to, form})
 				if form == eStar {
@@ -600,7 +601,7 @@ func Gen(t *rapid.T, cfg Config) Project {
 			case 2:
 				fmt.Fprintf(&tail, "import(\"ext-dyn\").then((m) => console.log(\"%s.extdyn\", m));\n", "MARK_"+s.id)
 			case 3:
-				if cfg.AllowRequire {
+				if useRequire {
 					fmt.Fprintf(&tail, "console.log(\"%s.extrq\", require(\"ext-req\"));\n", "MARK_"+s.id)
 				} else {
 					fmt.Fprintf(&sb, "export * from \"ext-star\";\n")
@@ -863,4 +864,52 @@ func GenOpts(t *rapid.T, cfg Config) Opts {
 		o.FooterJS, o.FooterCSS = "/* FOOTER js */", "/* FOOTER css */"
 	}
 	return o
+}
+
+// Reachable returns the input files that the entry points (plus stdin and injected files) reach through
+// relative import specifiers of any kind, as found by this package's own scanners. It is used to steer
+// generators towards files that matter; it never decides a verdict.
+func Reachable(p *Project) map[string]bool {
+	seen := map[string]bool{}
+	var queue []string
+	push := func(f string) {
+		if !seen[f] && p.FileIndex(f) >= 0 {
+			seen[f] = true
+			queue = append(queue, f)
+		}
+	}
+	follow := func(from string, recs []ImportRec) {
+		for _, r := range recs {
+			if strings.HasPrefix(r.Spec, "./") || strings.HasPrefix(r.Spec, "../") {
+				push(filepath.ToSlash(filepath.Join(dirOf(from), r.Spec)))
+			}
+		}
+	}
+	for _, e := range p.Entries {
+		push(e)
+	}
+	for _, e := range p.Opts.Inject {
+		push(e)
+	}
+	if p.Stdin != nil {
+		if info, err := ScanJS([]byte(p.Stdin.Contents)); err == nil {
+			follow("stdin.js", info.Imports)
+		}
+	}
+	for len(queue) > 0 {
+		f := queue[0]
+		queue = queue[1:]
+		fl := p.Files[p.FileIndex(f)]
+		switch fl.Kind {
+		case KJS:
+			if info, err := ScanJS(fl.Bytes()); err == nil {
+				follow(f, info.Imports)
+			}
+		case KCSS:
+			if info, err := ScanCSS(fl.Bytes()); err == nil {
+				follow(f, info.Imports)
+			}
+		}
+	}
+	return seen
 }
